@@ -256,7 +256,8 @@ func runC04(p *Program, r *Result) {
 					short(a.Call.Args[1].String()) == "age.ErrIncorrectIdentity" && strings.HasPrefix(a.Call.Args[0].String(), "invoke (filippo.io/age.Identity).Unwrap(")
 			})
 			val := short(tb.Term(s.Val).String())
-			okVal := strings.HasPrefix(val, "Concat(Field(") && strings.Contains(val, ".Errors") && strings.Contains(val, "List(invoke (age.Identity).Unwrap(") && strings.HasSuffix(val, ".1))")
+			// the appended element is that iteration's error, as it is or wrapped by a formatting call
+			okVal := strings.HasPrefix(val, "Concat(Field(") && strings.Contains(val, ".Errors") && strings.Contains(val, "invoke (age.Identity).Unwrap(") && strings.Contains(val, ").1")
 			if ok && okVal {
 				// and the sentinel edge always passes the store before continuing
 				ifi := a.If
